@@ -15,6 +15,7 @@ from typing import Any, Dict, List, Optional, Tuple
 
 from . import core
 from . import gx as GXM
+from . import gx_replay as GR
 
 _GX: Optional[GXM.GX] = None
 
@@ -55,7 +56,74 @@ def follows_for(gx, method, nt_name, prod) -> List[tuple]:
 
 
 BUDGET = {"quick": 8000, "thorough": 150000}
+CONCRETE_SAMPLES = {"quick": 40, "thorough": 400}
+LIMIT_SAMPLES = {"quick": 60, "thorough": 600}    # forms at the expansion depth limit continued natively (same family)   # completed runs per flat production re-run natively (bounded family `concrete`)
 _TIER = "quick"
+
+
+def _fresh_signature(rec, run) -> bool:
+    """Sample forms for the concrete cross-check so that every combination of first tokens chosen for the markers is
+    represented once (instead of the first few runs, which differ only in the follow context)."""
+    sig = tuple((x.nt, x.first) for x in GXM._walk(run.root) if isinstance(x, GXM.Mark)) + (len(run.toks),)
+    seen = rec.setdefault("_sigs", set())
+    if sig in seen:
+        return False
+    seen.add(sig)
+    return True
+
+
+def _max_star(shape) -> int:
+    m = 0
+    for st in shape if isinstance(shape, list) else []:
+        if isinstance(st, list):
+            if st and all(isinstance(x, list) for x in st):
+                m = max(m, len(st))
+            m = max(m, _max_star(st))
+            for x in st:
+                if isinstance(x, list):
+                    m = max(m, _max_star(x))
+    return m
+
+
+def _long_repetitions(gx, idx, pidx, method, nt_name, p, fac, fols, rec):
+    """Bounded: the repetitions of the production (comma lists, suffix chains, specifier sequences, block items) unrolled 3 and 4
+    times -- beyond the 0..2 of the abstract exploration -- as complete derivations run natively against the reference AST
+    (a loop body that carries state from one iteration to the next shows on the third or fourth iteration)."""
+    if not any(isinstance(x, (GXM.Star, GXM.Opt)) for x in p.rhs):
+        return
+    done = 0
+    for reps in (3, 4):
+        try:
+            alts = gx.g.expand_rhs(p.rhs, maxrep=reps)
+        except Exception:
+            return
+        if len(alts) > 20000:
+            continue
+        cands = [(len(fl), k) for k, (fl, sh) in enumerate(alts) if _max_star(sh) == reps]
+        cands.sort()
+        for _, k in cands[:3]:
+            flat, shape = alts[k]
+            root = gx.instantiate(p, flat, shape, 0)
+            fol = next((list(f) for f in fols if f), [])
+
+            class _R:
+                follow_used = fol
+            _R.root = root
+            try:
+                croot = GR.concretise(gx, root, None, f"long/{p.label}/{reps}/{k}")
+                if croot is None:
+                    continue
+                args, kwargs = fac(gx, p) if fac else ((), {})
+                gx.scope_depth = 1
+                cr = GR.concrete_run(gx, method, nt_name, croot, fol, args, kwargs, 1)
+            except Exception as e:
+                rec["notes"].append(f"long-repetition run failed to execute: {type(e).__name__}: {e}")
+                continue
+            done += 1
+            rec["limit_n"] += 1
+            if cr["kind"] in ("diff", "exception"):
+                rec["concrete"].append((f"{cr['kind']}: {cr['detail']}\nconcrete input ({reps} repetitions): {cr.get('text')!r}", cr.get("text") or "", fol,
+                                        dict(long=True, idx=idx, pidx=pidx, reps=reps, k=k, follow=fol)))
 
 
 def run_case(item, _retry=False) -> dict:
@@ -75,19 +143,46 @@ def run_case(item, _retry=False) -> dict:
         out["missing"] = True
         return out
     for p in nt.prods[pidx:pidx + 1]:
-        rec = dict(label=p.label, note=p.note, runs=0, ok=0, fails=[], term=[], coord=[], scope=[], cost=[], attrs=[], rescan=[], notes=[], samples=[])
+        rec = dict(label=p.label, note=p.note, runs=0, ok=0, fails=[], term=[], coord=[], scope=[], cost=[], attrs=[], rescan=[], notes=[], samples=[],
+                   concrete=[], concrete_n=0, fresh=[], limit_n=0)
         fols = {id(fs): follows_for(gx, method, nt_name, p) for fs in [p]}[id(p)]
         per = max(600 if _TIER == "quick" else 6000, BUDGET[_TIER] // max(1, len(p.flat) * len(fols))) * (12 if _retry else 1)
         depths = (1, 2) if method in SCOPE_SENSITIVE else (1,)
         per = max(600 if _TIER == "quick" else 6000, BUDGET[_TIER] // max(1, len(p.flat))) * (12 if _retry else 1)
+        per *= getattr(p, "budget_x", 1)   # productions whose interesting forms combine two callee result shapes
         for flat, shape in p.flat:
           for depth in depths:
             gx.scope_depth = depth   # file scope / inside a block: registration must not depend on it
             for fol in [None]:
                 args, kwargs = fac(gx, p) if fac else ((), {})
                 outs: List[GXM.Outcome] = []
+
+                def at_limit(tree, fol_, rec=rec, depth=depth):
+                    # where the lazy expansion gives up (nesting deeper than MAXDEPTH), go on with complete shortest
+                    # derivations of the form reached so far, run natively against the reference AST (bounded)
+                    if rec["limit_n"] >= LIMIT_SAMPLES[_TIER]:
+                        return
+
+                    class _R:
+                        root = tree
+                        follow_used = fol_ if isinstance(fol_, (tuple, list)) else ()
+                        toks = ()
+                    if not _fresh_signature(rec, _R):
+                        return
+                    try:
+                        rd = GR.replay_data(gx, idx, pidx, depth, _R)
+                        if rd is None:
+                            return
+                        rec["limit_n"] += 1
+                        cr = GR.run_data(gx, rd, limit=3)
+                        if cr["kind"] in ("diff", "exception"):
+                            rec["concrete"].append((f"{cr['kind']}: {cr['detail']}\nconcrete input: {cr.get('text')!r}",
+                                                    " ".join(v for v in [cr.get("text") or ""]), list(_R.follow_used), rd))
+                    except Exception as e:
+                        rec["notes"].append(f"concrete continuation failed to run: {type(e).__name__}: {e}")
                 try:
-                    runs, notes = GXM.explore(gx, method, nt_name, p, flat, shape, [tuple(f) for f in fols], args, kwargs, on_done=outs.append, budget=per)
+                    runs, notes = GXM.explore(gx, method, nt_name, p, flat, shape, [tuple(f) for f in fols], args, kwargs, on_done=outs.append,
+                                              budget=per, on_limit=at_limit)
                 except RecursionError:
                     rec["notes"].append("RecursionError in the checker")
                     continue
@@ -116,10 +211,33 @@ def run_case(item, _retry=False) -> dict:
                         except Exception as e:  # spec-side failure: undecided, not a violation
                             rec["notes"].append(f"spec build failed on `{text}`: {type(e).__name__}: {e}")
                             d = None
+                        fd = shared_node_diff(gx, oc)
+                        if fd:
+                            rec["fresh"].append((fd, text, list(fol)))
                         if not d:
-                            d = shared_node_diff(gx, oc)
+                            d = fd
                         if d:
-                            (rec["coord"] if ".coord" in d.split(":")[0] else rec["term"]).append((d, text, list(fol)))
+                            lst = rec["coord"] if ".coord" in d.split(":")[0] else rec["term"]
+                            rd = None
+                            if sum(1 for x in lst if len(x) > 3 and x[3]) < 3:
+                                try:
+                                    rd = GR.replay_data(gx, idx, pidx, depth, oc.run)
+                                except Exception:
+                                    rd = None
+                            lst.append((d, text, list(fol), rd))
+                        elif (rec["concrete_n"] < CONCRETE_SAMPLES[_TIER] and not nondefault
+                              and _fresh_signature(rec, oc.run)):
+                            # bounded end-to-end cross-check: the same form, completed to a full derivation, through the real
+                            # lexer and the real callees, must give the reference AST as well
+                            try:
+                                rd = GR.replay_data(gx, idx, pidx, depth, oc.run)
+                                if rd is not None:
+                                    rec["concrete_n"] += 1
+                                    cr = GR.run_data(gx, rd, limit=3)
+                                    if cr["kind"] in ("diff", "exception"):
+                                        rec["concrete"].append((f"{cr['kind']}: {cr['detail']}\nconcrete input: {cr.get('text')!r}", text, list(fol), rd))
+                            except Exception as e:
+                                rec["notes"].append(f"concrete cross-check failed to run on `{text}`: {type(e).__name__}: {e}")
                         ad = attr_node_diff(gx, oc)
                         if ad:
                             rec["attrs"].append((ad, text, list(fol)))
@@ -137,6 +255,9 @@ def run_case(item, _retry=False) -> dict:
         if rec["ok"] == 0 and not rec["fails"] and not _retry:
             # nothing completed within the budget: give this production a much larger one before calling it undecided
             return run_case(item, _retry=True)
+        if p.note != "superset":
+            _long_repetitions(gx, idx, pidx, method, nt_name, p, fac, fols, rec)
+        rec.pop("_sigs", None)
         out["prods"].append(rec)
         out["runs"] += rec["runs"]
     out["time"] = time.time() - t0
@@ -187,6 +308,46 @@ def expected_registrations(gx, method, oc, follow):
 _SEEN_NODES = {}
 
 
+def static_nodes(gx) -> Dict[int, str]:
+    """id -> where, for every AST node reachable from module-level or class-level data of the pycparser modules."""
+    if getattr(gx, "_static_nodes", None) is not None:
+        return gx._static_nodes
+    A = gx.c_ast
+    out: Dict[int, str] = {}
+    seen = set()
+
+    def walk(v, where, depth=0):
+        if depth > 6 or id(v) in seen:
+            return
+        seen.add(id(v))
+        if isinstance(v, A.Node):
+            out[id(v)] = where
+            for s_ in type(v).__slots__:
+                if s_ != "__weakref__":
+                    walk(getattr(v, s_, None), where, depth + 1)
+        elif isinstance(v, (list, tuple, set, frozenset)):
+            for x in v:
+                walk(x, where, depth + 1)
+        elif isinstance(v, dict):
+            for x in v.values():
+                walk(x, where, depth + 1)
+    import types
+    mods = [gx.c_parser, gx.c_lexer, gx.c_ast] + [core.repo_import(m) for m in ("pycparser.ast_transforms", "pycparser.c_generator")]
+    for mod in mods:
+        for name, val in list(vars(mod).items()):
+            if isinstance(val, (types.ModuleType, types.FunctionType)):
+                continue
+            if isinstance(val, type):
+                if getattr(val, "__module__", None) == mod.__name__:
+                    for an, av in list(vars(val).items()):
+                        if not callable(av):
+                            walk(av, f"{mod.__name__}.{name}.{an}")
+                continue
+            walk(val, f"{mod.__name__}.{name}")
+    gx._static_nodes = out
+    return out
+
+
 def shared_node_diff(gx, oc):
     """Every node a parse method builds is fresh: no node of a result may also be part of the result of another
     invocation (C03: each declared entity gets its OWN node; C12: ASTs of different calls share no nodes)."""
@@ -208,6 +369,7 @@ def shared_node_diff(gx, oc):
         elif isinstance(v, dict):
             for x in v.values():
                 collect(x, acc, depth + 1)
+    static = static_nodes(gx)
     handed = {}
     for (_, n, _, _) in oc.run.stub_calls:
         collect(gx.value_of(n), handed)
@@ -221,6 +383,9 @@ def shared_node_diff(gx, oc):
     for k, v in mine.items():
         if k in handed or isinstance(v, gx.Opaque):
             continue
+        if k in static:
+            return (f"result: the {type(v).__name__} node is a module-level / class-level object ({static[k]}): every call returns "
+                    f"the same node, so the ASTs of different calls are not independent")
         if k in _SEEN_NODES and _SEEN_NODES[k][0] is v and _SEEN_NODES[k][1] is not oc.run:
             return f"result: the {type(v).__name__} node is the very object returned inside the result of an earlier invocation (shared node)"
         _SEEN_NODES[k] = (v, oc.run)
@@ -273,6 +438,8 @@ def attr_node_diff(gx, oc):
     return walk(oc.result)
 
 
+FEATURE_TAGS = [("_Static_assert", "static_assert")]   # (text found in the concrete input, tag appended to the obligation name)
+MAX_LOOKAHEAD = 2   # _TokenStream.peek(k) is used with k <= 2 (contract of CParser._peek)
 MAX_UNDONE_OWN = 2  # a speculative look-ahead may take back at most this many tokens of its own
 
 
@@ -281,6 +448,9 @@ def cost_diff(gx, method, oc):
     tokens, never a construct parsed by a callee (that construct would be parsed again: work doubles per nesting level)
     and never an unbounded scan."""
     worst = None
+    if getattr(oc.run, "max_peek", 0) > MAX_LOOKAHEAD:
+        worst = (f"looks {oc.run.max_peek} tokens ahead (peek(k) with k > {MAX_LOOKAHEAD}): a look-ahead scan whose length grows with the "
+                 f"construct is repeated at every nesting level (quadratic); the parser's look-ahead is bounded by {MAX_LOOKAHEAD} tokens")
     for (m, cur, stubs, own) in oc.run.undone:
         if stubs:
             return (f"reset from token {cur} back to {m} throws away callee work {stubs}: the construct is parsed again "
@@ -304,6 +474,8 @@ def _decl_names(gx, res):
 
 
 def scope_diff(gx, method, oc, follow):
+    if getattr(oc.run, "stack_moves", None):
+        return oc.run.stack_moves[0]
     want = expected_registrations(gx, method, oc, follow)
     got = list(oc.run.registrations)
     # names whose registration is the duty of a callee under contract (a stubbed declaring method): its own scope
@@ -478,9 +650,34 @@ def to_obligations(gx, recs: List[dict], families: List[str], prefix: str) -> co
                     bad = p["attrs"]
                 elif fam == "rescan":
                     bad = p["rescan"]
+                elif fam == "concrete":
+                    bad = p.get("concrete", [])
+                elif fam == "fresh":
+                    bad = p.get("fresh", [])
                 else:
                     raise ValueError(fam)
                 name = f"{prefix}/{fam}/{base}"
+                if bad and fam == "concrete":
+                    # failures are grouped by the rare feature their concrete input contains, so that a listed finding about one
+                    # feature cannot hide a different failure of the same production
+                    groups: Dict[str, list] = {}
+                    for x in bad:
+                        tag = next((t for needle, t in FEATURE_TAGS if needle in x[0]), "")
+                        groups.setdefault(tag, []).append(x)
+                    for tag, xs in sorted(groups.items()):
+                        withrep = [x for x in xs if len(x) > 3 and x[3]]
+                        first = withrep[0] if withrep else xs[0]
+                        d, text, fol = first[:3]
+                        det = f"{d}\nform: {text}   followed by {fol}\n({len(xs)} differing native runs)"
+                        rep = GR.script(first[3]) if len(first) > 3 and first[3] else None
+                        res.obs.append(core.Ob(name + (f"/with-{tag}" if tag else ""), core.REFUTED, "GX-concrete", 0.0, det, replay=rep,
+                                               functions=[q], sample=text))
+                    if "" not in groups:
+                        n = p.get("concrete_n", 0) + p.get("limit_n", 0)
+                        res.obs.append(core.Ob(name, core.DISCHARGED, "GX-concrete", 0.0,
+                                               f"BOUNDED: {n} completed forms re-run natively; all agree with the reference AST except the listed feature(s) {sorted(groups)}",
+                                               functions=[q], sample=sample, bounded=True))
+                    continue
                 if bad and fam == "attrs":
                     name += "/" + bad[0][0].split(" ")[0]   # the (class.field) that holds a node
                 if bad:
@@ -490,10 +687,18 @@ def to_obligations(gx, recs: List[dict], families: List[str], prefix: str) -> co
                         full = (wit + " " + " ".join(gx.spelling(t) for t in fol if t)) if wit else None
                         rep = replay_accept(gx, nt_name, wit, typeids_in(wit))
                     else:
-                        d, text, fol = bad[0]
+                        withrep = [x for x in bad if len(x) > 3 and x[3]]
+                        first = withrep[0] if withrep else bad[0]
+                        d, text, fol = first[:3]
                         det = f"{d}\nform: {text}   followed by {fol}\n({len(bad)} differing runs of {p['runs']})"
-                        rep = None
+                        rep = GR.script(first[3]) if len(first) > 3 and first[3] else None
                     res.obs.append(core.Ob(name, core.REFUTED, "GX", 0.0, det, replay=rep, functions=[q], sample=text))
+                elif fam == "concrete":
+                    n = p.get("concrete_n", 0) + p.get("limit_n", 0)
+                    if n:
+                        res.obs.append(core.Ob(name, core.DISCHARGED, "GX-concrete", 0.0,
+                                               f"BOUNDED: {n} completed forms re-run natively (real lexer, real callees) agree with the reference AST",
+                                               functions=[q], sample=sample, bounded=True))
                 elif p["ok"] == 0 and not p["fails"]:
                     res.obs.append(core.Ob(name, core.UNDECIDED, "GX", 0.0,
                                            "no run completed for this production: " + "; ".join(p["notes"][:3]), functions=[q]))
